@@ -250,6 +250,9 @@ func verifVideoTrack() *Track {
 	}
 	switch verifParam("VCODEC", 0) {
 	case 1:
+		if verifParam("H265SPS", 1) == 2 {
+			return &Track{Codec: &codecs.H265{VPS: verifH265VPS, SPS: verifH265SPS2, PPS: verifH265PPS(0)}, ClockRate: 90000}
+		}
 		return &Track{Codec: &codecs.H265{VPS: verifH265VPS, SPS: verifH265SPS, PPS: verifH265PPS(0)}, ClockRate: 90000}
 	case 2:
 		return &Track{Codec: &codecs.VP9{Width: 1920, Height: 804, Profile: 0, BitDepth: 8, ChromaSubsampling: 1}, ClockRate: 90000}
